@@ -194,7 +194,8 @@ def g5(ctx):
     for n in impl.body.walk():
         if n.kind == 'CXXOperatorCallExpr' and n.callee_name() == 'operator=' and len(n.kids) == 3:
             lhs, rhs = n.kids[1], n.kids[2]
-            if lhs.kind == 'MemberExpr' and member_path(lhs.kids[0]) == 'registration':
+            if lhs.kind == 'MemberExpr' and 'Registration' in ' '.join(
+                    (x.type or '') for x in lhs.kids[0].walk()):
                 for d in rhs.walk():
                     if d.kind == 'DeclRefExpr' and d.ref and d.ref.get('kind') == 'ParmVarDecl':
                         p2f[d.ref.get('name')] = lhs.name
